@@ -51,6 +51,7 @@ MIN_COUNTERS = {
               'node_id_wraps': 200, 'default_group_checks': 50,
               'object_histories_reported_max_logins_differs': 500,
               'outside_partition_frees': 5000, 'object_outside_partition_frees': 300,
+              'object_frees_whose_send_fails': 300,
               'model_selftest': 1},
     'thorough': {'allocs_judged': 5_000_000, 'none_answers_judged': 500_000,
                  'none_answers_offset_zero': 100_000,
@@ -62,6 +63,7 @@ MIN_COUNTERS = {
                  'object_histories_reported_max_logins_differs': 20_000,
                  'outside_partition_frees': 200_000,
                  'object_outside_partition_frees': 10_000,
+                 'object_frees_whose_send_fails': 10_000,
                  'model_selftest': 1},
 }
 
@@ -140,6 +142,7 @@ class Stats:
         self.allocs = self.nones = self.frees = self.coalescing = 0
         self.dfrees = self.ufrees = self.blocks = 0
         self.ofrees = self.ofree_index_errors = 0
+        self.failed_send_frees = 0
         self.alloc_after_coalescing = False
         self._pending = False
 
@@ -294,6 +297,7 @@ def _count(acc, st, offset, prefix):
     acc.count(prefix + 'double_frees', st.dfrees)
     acc.count(prefix + 'unknown_frees', st.ufrees)
     acc.count(prefix + 'outside_partition_frees', st.ofrees)
+    acc.count(prefix + 'frees_whose_send_fails', st.failed_send_frees)
     acc.count(prefix + 'outside_partition_frees_refused_with_IndexError',
               st.ofree_index_errors)
     acc.count(prefix + 'coalescing_frees', st.coalescing)
@@ -482,13 +486,54 @@ def run_objects(spec, acc):
                 elif r < prof['alloc'] + prof['free']:
                     kind, start, n, objs = live.pop(rng.randrange(len(live)))
                     m, st = models[kind], stats[kind]
-                    st.note_free(m, start)
-                    st.frees += 1
-                    ops.append((kind + '-free', start))
-                    for o in objs:        # a consecutive group is freed as a group
-                        o.free()
-                    m.free(start)
-                    dead.append((kind, objs[0]))
+                    if kind == 'buffer' and len(objs) == 1 and rng.random() < 0.2:
+                        # the SEND of the free command fails (a completion
+                        # message the OSC encoder refuses): the free must not happen by halves -
+                        # afterwards the object is either fully freed (number
+                        # back in the allocator, object without number) or
+                        # fully intact; a half-freed object would release a
+                        # number a second time on a retry
+                        o = objs[0]
+                        comp = rng.choice([['/b_query', 2 ** 70],
+                                           ['/b_query', object()],
+                                           ['/b_set', start, 0, 1e400, {}]])
+                        ops.append(('buffer-free-send-fails', start))
+                        st.failed_send_frees += 1
+                        raised = None
+                        try:
+                            o.free(comp)
+                        except Exception as e:       # noqa: any refusal
+                            raised = e
+                        released = start not in {b.start for b in
+                                                 allocators['buffer'].blocks()}
+                        cleared = o.bufnum is None
+                        if raised is None:
+                            acc.count('object_failing_sends_not_refused')
+                        if released != cleared:
+                            bad = (k, 'free/failed-send-leaves-buffer-half-freed',
+                                   f'after {type(raised).__name__}: number {start} '
+                                   f'{"returned to" if released else "still in"} the '
+                                   f'allocator, object.bufnum = {o.bufnum}',
+                                   'send-raises')
+                            break
+                        if released:
+                            m.free(start)
+                            dead.append((kind, o))
+                        else:
+                            live.append((kind, start, n, objs))
+                        continue_to_judge = True
+                    else:
+                        continue_to_judge = False
+                    if continue_to_judge:
+                        pass
+                    else:
+                        st.note_free(m, start)
+                        st.frees += 1
+                        ops.append((kind + '-free', start))
+                        for o in objs:    # a consecutive group is freed as a group
+                            o.free()
+                        m.free(start)
+                        dead.append((kind, objs[0]))
                 else:
                     if not dead:
                         continue
